@@ -108,17 +108,39 @@ func ZvC11_Intersection() {
 }
 
 func ZvC11_IntersectionBy() {
-	a := zvInts(zvLen(vrt.Pick(4, 5)))
+	// one or two further arguments: an image must occur among the images of EVERY other argument
+	three := vrt.Choice(2) == 1
+	amax := vrt.Pick(4, 5)
+	if three {
+		amax = vrt.Pick(2, 3)
+	}
+	a := zvInts(zvLen(amax))
 	b := zvInts(zvM11())
+	others := [][]int{b}
+	if three {
+		others = append(others, zvInts(vrt.Choice(3)))
+	}
 	var r []int
-	vrt.Assert(!vrt.Try(func() { r = IntersectionBy(zvFn, a, b) }), "C11/IntersectionBy/no-panic")
+	vrt.Assert(!vrt.Try(func() {
+		if len(others) == 1 {
+			r = IntersectionBy(zvFn, a, b)
+		} else {
+			r = IntersectionBy(zvFn, a, b, others[1])
+		}
+	}), "C11/IntersectionBy/no-panic")
 	qual := func(x int) bool {
-		for _, y := range b {
-			if zvFn(y) == zvFn(x) {
-				return true
+		for _, o := range others {
+			in := false
+			for _, y := range o {
+				if zvFn(y) == zvFn(x) {
+					in = true
+				}
+			}
+			if !in {
+				return false
 			}
 		}
-		return false
+		return true
 	}
 	// (1) subsequence of the first argument, (2) every kept element qualifies,
 	// (3) the first qualifying element is kept (what every reading of the statement implies).
